@@ -257,7 +257,7 @@ def long_objects(out, workdir):
     from droplets import DiffuseDroplet, Emulsion, EmulsionTimeCourse, SphericalDroplet
     from droplets.droplet_tracks import DropletTrack, DropletTrackList
 
-    for n in ((12, 103) if out.tier == "quick" else (12, 103, 1001)):
+    for n in (12, 103, 1001):
         fails = []
         ems = [Emulsion([DiffuseDroplet(np.array([0.5 * k, -1.0 * j]), 1.0 + 0.01 * k, 0.1 * (j + 1)) for j in range(k % 3)])
                for k in range(n)]
